@@ -117,6 +117,12 @@ theorem net_feasible_iff_fin {m n T : Nat} (M : Fin m → Fin n → K) (lim : Fi
     rw [hc, hw, hw]
     exact this
 
+/-- instance at `m = 1, n = 2, T = 1`: orthogonal phasors, currents 3 and 4 against the limit 5
+    (`3² + 4² = 5²`: the edge itself is feasible) -/
+example : netFeasible (List.ofFn fun i : Fin 1 => List.ofFn (![![(1 : ℚ), -1]] i)) (List.ofFn ![(5 : ℚ)])
+    (List.ofFn ![(1 : ℚ), 0]) (List.ofFn ![(0 : ℚ), 1]) 0 0
+    (List.ofFn fun j : Fin 2 => List.ofFn (![![(3 : ℚ)], ![4]] j)) = true := by decide +kernel
+
 /-- **the phasor definition itself**, over ℝ with `c_j = cos φ_j`, `s_j = sin φ_j`: feasible ⇔ for
     every constraint `i` and period `t`, `‖Σ_j M i j · S j t · e^{iφ_j}‖ ≤ lim i + max vt (rt · lim i)`
     (a negative bound is never met, so that case needs no separate clause). -/
@@ -187,6 +193,12 @@ theorem linear_modes_agree (stations : List String) (M : List (List K)) (lims c 
     fun S => (netLinear_eq_alg2 M lims vt rt S).symm⟩
   simpa using ifaceE_ok stations M lims c s vt rt true sched len hne hlen
 
+example : ifaceFeasibleE ["A", "B", "C"] [[(1 : ℚ), -1, 0]] [20] [1, 0, 3/5] [0, 1, 4/5] (1/100) 0 true
+      [("B", [12, 1]), ("A", [9, 1])] = .ok false ∧
+    algLinear2 [[(1 : ℚ), -1, 0]] [20] (1/100) 0 [[9, 1], [12, 1], [0, 0]] = false ∧
+    ifaceFeasibleE ["A", "B", "C"] [[(1 : ℚ), -1, 0]] [20] [1, 0, 3/5] [0, 1, 4/5] (1/100) 0 false
+      [("B", [12, 1]), ("A", [9, 1])] = .ok true := by decide +kernel
+
 /-- rows of different lengths are refused by the interface side (and only those) -/
 theorem iface_rejects_ragged (stations : List String) (M : List (List K)) (lims c s : List K)
     (vt rt : K) (linear : Bool) (k : String) (r : List K) (rest : List (String × List K)) :
@@ -228,7 +240,8 @@ def exNet : Net ℚ :=
     matrix := some { cols := 3, rows := [[1, 1, 0], [0, 1, -1]] }, lims := [5, 4],
     cids := ["p", "q"], vt := 1/100, rt := 1/1000 }
 
-theorem exNet_wf : exNet.WF :=
+/-- the hypotheses of `three_agree_entry` are satisfiable -/
+example : exNet.WF :=
   ⟨rfl, rfl, rfl, rfl, (by intro h; cases h), (by intro M h; cases h; exact ⟨rfl, rfl⟩)⟩
 
 example : exNet.ifaceIsFeasible [("C", [1, 0]), ("A", [3, 4]), ("B", [4, 3])] false none none
@@ -355,6 +368,14 @@ theorem linear_conservative_entry (net : Net K) (hwf : net.WF) (hu : UnitPhasors
   have := Net.isFeasible_eq_view net hwf (densify net.stations sched len) false vt? rt?
   rw [key] at this
   simpa using this.symm
+
+example : exNet.ifaceIsFeasible [("A", [1]), ("C", [2]), ("B", [1])] true none none = .ok true ∧
+    exNet.ifaceIsFeasible [("A", [1]), ("C", [2]), ("B", [1])] false none none = .ok true ∧
+    UnitPhasors exNet.c exNet.s := by
+  refine ⟨by decide +kernel, by decide +kernel, rfl, ?_⟩
+  intro p hp
+  simp [exNet, List.zip] at hp
+  rcases hp with rfl | rfl | rfl <;> norm_num
 
 /-! ### 5. regenerated constants (T1) -/
 
